@@ -36,6 +36,9 @@ type lockAn struct {
 	before  map[ssa.Instruction]uint64
 	atRet   map[*ssa.Return]uint64
 	fnsDone map[*ssa.Function]bool
+	// effect: net change of the lockset across a call of an in-package function that hands a lock over to its caller
+	// (returns with a lock held that it did not hold on entry) or releases one for it: acquired / released bits
+	effect map[*ssa.Function][2]int
 }
 
 // mutexKind: for x.mu.Lock()/Unlock() return which mutex (by owner type) and the op.
@@ -76,6 +79,11 @@ func (a *lockAn) run(fn *ssa.Function) {
 		case *ssa.Call:
 			k, op := mutexOp(x)
 			if k == 0 {
+				if g := x.Call.StaticCallee(); g != nil {
+					if ef, ok := a.effect[g]; ok && (ef[0] != 0 || ef[1] != 0) {
+						return 1 << uint((s|ef[0])&^ef[1]), true
+					}
+				}
 				return 0, false
 			}
 			if op == "lock" {
@@ -153,7 +161,7 @@ func runC17(w *World, r *Report) {
 			fns = append(fns, fn)
 		}
 	}
-	a := &lockAn{w: w, pkg: pkg, entry: map[*ssa.Function]int{}, before: map[ssa.Instruction]uint64{}, atRet: map[*ssa.Return]uint64{}, fnsDone: map[*ssa.Function]bool{}}
+	a := &lockAn{w: w, pkg: pkg, entry: map[*ssa.Function]int{}, before: map[ssa.Instruction]uint64{}, atRet: map[*ssa.Return]uint64{}, fnsDone: map[*ssa.Function]bool{}, effect: map[*ssa.Function][2]int{}}
 	// which functions touch the mutexes or the guarded fields at all
 	touches := func(fn *ssa.Function) bool {
 		t := false
@@ -188,6 +196,34 @@ func runC17(w *World, r *Report) {
 			a.run(fn)
 		}
 		changed := false
+		// lock hand-over: what a function that operates the mutexes leaves held (or releases) at every normal return
+		for _, fn := range fns {
+			ops := calls(fn, false, func(c ssa.CallInstruction) bool { _, op := mutexOp(c); return op != "" })
+			if len(ops) == 0 {
+				continue
+			}
+			exit := lkLRU | lkBlock
+			any := false
+			for ret, m := range a.atRet {
+				if ret.Parent() != fn {
+					continue
+				}
+				// deferred unlocks run at the return
+				var after uint64
+				bits(m, func(st int) { after |= 1 << uint((st&(lkLRU|lkBlock))&^((st>>2)&(lkLRU|lkBlock))) })
+				exit &= heldAll(after)
+				any = true
+			}
+			if !any {
+				continue
+			}
+			en := a.entry[fn]
+			ef := [2]int{exit &^ en, en &^ exit}
+			if a.effect[fn] != ef {
+				a.effect[fn] = ef
+				changed = true
+			}
+		}
 		for _, fn := range fns {
 			if !isHelper(fn) {
 				continue
@@ -272,13 +308,30 @@ func runC17(w *World, r *Report) {
 	}
 	// C17-b every lock released at return
 	for _, fn := range fns {
-		if len(calls(fn, false, func(c ssa.CallInstruction) bool { _, op := mutexOp(c); return op == "lock" })) == 0 {
+		locks := len(calls(fn, false, func(c ssa.CallInstruction) bool { _, op := mutexOp(c); return op == "lock" })) > 0
+		receives := len(calls(fn, false, func(c ssa.CallInstruction) bool {
+			g := c.Common().StaticCallee()
+			return g != nil && a.effect[g][0] != 0
+		})) > 0
+		if !locks && !receives {
 			continue
+		}
+		// a lock this function hands over to its callers (it returns with it held on every path, it is unexported
+		// and called from the package): the callers, analysed with that effect, are the ones that must release it
+		handover := 0
+		if ef := a.effect[fn]; ef[0] != 0 && !token.IsExported(fn.Name()) {
+			ncallers := 0
+			for _, caller := range fns {
+				ncallers += len(calls(caller, false, func(c ssa.CallInstruction) bool { return c.Common().StaticCallee() == fn }))
+			}
+			if ncallers > 0 {
+				handover = ef[0]
+			}
 		}
 		bad := ""
 		for _, ret := range returnsOf(fn) {
 			bits(a.atRet[ret], func(s int) {
-				held := s & (lkLRU | lkBlock)
+				held := s & (lkLRU | lkBlock) &^ handover
 				deferred := (s >> 2) & (lkLRU | lkBlock)
 				if held&^deferred != 0 {
 					bad = lockNames(held&^deferred) + " still held at " + w.relFile(instrPos(ret))
@@ -431,16 +484,35 @@ func c17Fresh(w *World, base ssa.Value) bool {
 }
 
 func c17Coherence(w *World, r *Report, fn *ssa.Function, site ssa.CallInstruction, key ssa.Value, cl *ssa.Function, mc *ssa.MakeClosure) {
-	reads := calls(cl, false, isReadAt)
-	if len(reads) == 0 {
-		r.Undecided("C17-e", fnName(fn), "key is the fetch offset #"+ordinal(fn, site), w.relFile(site.Pos()), "the fetch closure performs no direct ReadAt")
-		return
-	}
 	env := map[ssa.Value][]ssa.Value{}
 	for i, fv := range cl.FreeVars {
 		if i < len(mc.Bindings) {
 			env[fv] = []ssa.Value{mc.Bindings[i]}
 		}
+	}
+	reads := calls(cl, false, isReadAt)
+	if len(reads) == 0 {
+		// the fetch may have been lifted into a method the closure calls: its parameters stand for the closure's actuals
+		for _, c := range calls(cl, false, func(c ssa.CallInstruction) bool {
+			g := c.Common().StaticCallee()
+			return g != nil && w.fnSet[g] && g.Blocks != nil && w.pkgOf(g) == w.pkgOf(fn)
+		}) {
+			g := c.Common().StaticCallee()
+			rs := calls(g, false, isReadAt)
+			if len(rs) == 0 {
+				continue
+			}
+			for i, p := range g.Params {
+				if i < len(c.Common().Args) {
+					env[p] = []ssa.Value{c.Common().Args[i]}
+				}
+			}
+			reads = append(reads, rs...)
+		}
+	}
+	if len(reads) == 0 {
+		r.Undecided("C17-e", fnName(fn), "key is the fetch offset #"+ordinal(fn, site), w.relFile(site.Pos()), "the fetch closure performs no ReadAt, directly or in a method it calls")
+		return
 	}
 	keyRoots := strings.Join(w.prov(key, provOpts{}).rootStrings(), ",")
 	for _, rd := range reads {
